@@ -269,11 +269,14 @@ def strictErr (r : R) : List Err :=
   | .ok _ => []
 
 /-- the error of a check of one operand alone (an implementation may perform it before it
-evaluates the other operands) -/
-def checkErr {β : Type} (r : R) (check : Seq → Except Err β) : List Err :=
-  match r.bind check with
-  | .error x => [x]
-  | .ok _ => []
+evaluates the other operands, and on a lazily delivered operand as soon as two items have
+arrived: "more than one item") -/
+def checkErr {β : Type} (l : LSeq) (check : Seq → Except Err β) : List Err :=
+  if l.err.isNone || decide (2 ≤ l.items.length) then
+    match check l.items with
+    | .error x => [x]
+    | .ok _ => []
+  else []
 
 /-- the checks that a function performs on its second / third argument by itself -/
 def argCheck2 (f : Fn2) (v : Seq) : Except Err Unit :=
@@ -283,6 +286,15 @@ def argCheck2 (f : Fn2) (v : Seq) : Except Err Unit :=
   | .indexOf => match v with | [_] => .ok () | _ => .error .XPTY0004
   | .stringJoin => match v with | [.str _] => .ok () | _ => .error .XPTY0004
   | .sum => .ok ()
+
+/-- the checks that a one-argument function can decide on the first two items of its argument -/
+def argCheck1 (f : Fn1) (v : Seq) : Except Err Unit :=
+  match f with
+  | .boolean | .not_ => (ebv v).map fun _ => ()
+  | .zeroOrOne => (zeroOrOne v).map fun _ => ()
+  | .exactlyOne => (exactlyOne v).map fun _ => ()
+  | .round => (fnRound v).map fun _ => ()
+  | _ => .ok ()
 
 def argCheck3 (f : Fn3) (v : Seq) : Except Err Unit :=
   match f with
@@ -307,46 +319,50 @@ def codes (sm : Summation) : Expr → Ctx → List Err
   | .comma a b, c => strictErr (sem sm (.comma a b) c) ++ codes sm a c ++ codes sm b c
   | .range a b, c =>
     strictErr (sem sm (.range a b) c) ++ codes sm a c ++ codes sm b c ++
-      checkErr (sem sm a c) atMostInt ++ checkErr (sem sm b c) atMostInt
+      checkErr (lz sm a c) atMostInt ++ checkErr (lz sm b c) atMostInt
   | .filter e p, c =>
     strictErr (sem sm (.filter e p) c) ++ codes sm e c ++
-      ((fociOf c (lz sm e c)).map fun c' => codes sm p c').flatten
+      ((fociOf c (lz sm e c)).map fun c' => codes sm p c' ++ checkErr (lz sm p c') (predicateTruth c'.pos)).flatten
   | .map a b, c =>
     strictErr (sem sm (.map a b) c) ++ codes sm a c ++
       ((fociOf c (lz sm a c)).map fun c' => codes sm b c').flatten
   | .forE bs r, c => strictErr (sem sm (.forE bs r) c) ++ codesBinds sm bs c (fun c' => codes sm r c')
   | .someE bs t, c =>
     strictErr (sem sm (.someE bs t) c) ++
-      codesBinds sm bs c (fun c' => codes sm t c' ++ strictErr ((sem sm t c').bind fun v => (ebv v).map fun _ => []))
+      codesBinds sm bs c (fun c' => codes sm t c' ++ strictErr ((sem sm t c').bind fun v => (ebv v).map fun _ => []) ++
+        checkErr (lz sm t c') ebv)
   | .everyE bs t, c =>
     strictErr (sem sm (.everyE bs t) c) ++
-      codesBinds sm bs c (fun c' => codes sm t c' ++ strictErr ((sem sm t c').bind fun v => (ebv v).map fun _ => []))
-  | .fn1 f a, c => strictErr (sem sm (.fn1 f a) c) ++ codes sm a c
+      codesBinds sm bs c (fun c' => codes sm t c' ++ strictErr ((sem sm t c').bind fun v => (ebv v).map fun _ => []) ++
+        checkErr (lz sm t c') ebv)
+  | .fn1 f a, c => strictErr (sem sm (.fn1 f a) c) ++ codes sm a c ++ checkErr (lz sm a c) (argCheck1 f)
   | .fn2 f a b, c =>
-    strictErr (sem sm (.fn2 f a b) c) ++ codes sm a c ++ codes sm b c ++ checkErr (sem sm b c) (argCheck2 f)
+    strictErr (sem sm (.fn2 f a b) c) ++ codes sm a c ++ codes sm b c ++ checkErr (lz sm b c) (argCheck2 f)
   | .fn3 f a b d, c =>
     strictErr (sem sm (.fn3 f a b d) c) ++ codes sm a c ++ codes sm b c ++ codes sm d c ++
-      checkErr (sem sm b c) (argCheck3 f) ++
-      (match f with | .subseq => checkErr (sem sm d c) (argCheck3 f) | .insertBefore => [])
+      checkErr (lz sm b c) (argCheck3 f) ++
+      (match f with | .subseq => checkErr (lz sm d c) (argCheck3 f) | .insertBefore => [])
   | .cmp op a b, c =>
     strictErr (sem sm (.cmp op a b) c) ++ codes sm a c ++ codes sm b c ++
-      checkErr (sem sm a c) (fun v => atMostOne (v.map (atomized c.doc))) ++
-      checkErr (sem sm b c) (fun v => atMostOne (v.map (atomized c.doc)))
+      checkErr (lz sm a c) (fun v => atMostOne (v.map (atomized c.doc))) ++
+      checkErr (lz sm b c) (fun v => atMostOne (v.map (atomized c.doc)))
   -- XPath 3.1 §3.8: the order in which the operands of `and` / `or` are evaluated is
   -- implementation-dependent: an error of the right operand may be reported in any case
   | .andE a b, c =>
     strictErr (sem sm (.andE a b) c) ++ codes sm a c ++ codes sm b c ++
-      strictErr ((sem sm b c).bind fun v => (ebv v).map fun _ => [])
+      strictErr ((sem sm b c).bind fun v => (ebv v).map fun _ => []) ++
+      checkErr (lz sm a c) ebv ++ checkErr (lz sm b c) ebv
   | .orE a b, c =>
     strictErr (sem sm (.orE a b) c) ++ codes sm a c ++ codes sm b c ++
-      strictErr ((sem sm b c).bind fun v => (ebv v).map fun _ => [])
+      strictErr ((sem sm b c).bind fun v => (ebv v).map fun _ => []) ++
+      checkErr (lz sm a c) ebv ++ checkErr (lz sm b c) ebv
   | .arith op a b, c =>
     strictErr (sem sm (.arith op a b) c) ++ codes sm a c ++ codes sm b c ++
-      checkErr (sem sm a c) numericOperand ++ checkErr (sem sm b c) numericOperand
-  -- §3.10: only the selected branch may raise
+      checkErr (lz sm a c) numericOperand ++ checkErr (lz sm b c) numericOperand
+  -- §3.10: only the selected branch may raise (the test may be decided lazily)
   | .ifE t a b, c =>
-    strictErr (sem sm (.ifE t a b) c) ++ codes sm t c ++
-      (match (sem sm t c).bind ebv with
+    strictErr (sem sm (.ifE t a b) c) ++ codes sm t c ++ checkErr (lz sm t c) ebv ++
+      (match ebvL (lz sm t c) with
        | .ok true => codes sm a c
        | .ok false => codes sm b c
        | .error _ => [])
@@ -367,10 +383,14 @@ def Permitted (sm : Summation) (e : Expr) (c : Ctx) (r : R) : Prop :=
   | .ok v => (lz sm e c).force = .ok v
   | .error x => x ∈ codes sm e c
 
-instance instDecEqR : DecidableEq R := fun a b => by
-  cases a <;> cases b <;> simp only [Except.ok.injEq, Except.error.injEq, reduceCtorEq] <;> infer_instance
+instance instDecEqR : DecidableEq R
+  | .ok a, .ok b => if h : a = b then isTrue (by rw [h]) else isFalse (fun h' => h (Except.ok.inj h'))
+  | .error a, .error b => if h : a = b then isTrue (by rw [h]) else isFalse (fun h' => h (Except.error.inj h'))
+  | .ok _, .error _ => isFalse (fun h => nomatch h)
+  | .error _, .ok _ => isFalse (fun h => nomatch h)
 
-instance (sm : Summation) (e : Expr) (c : Ctx) (r : R) : Decidable (Permitted sm e c r) := by
-  unfold Permitted; cases r <;> simp only [] <;> infer_instance
+instance instDecPermitted (sm : Summation) (e : Expr) (c : Ctx) : (r : R) → Decidable (Permitted sm e c r)
+  | .ok v => inferInstanceAs (Decidable ((lz sm e c).force = .ok v))
+  | .error x => inferInstanceAs (Decidable (x ∈ codes sm e c))
 
 end EPV.Seq.Spec
